@@ -221,7 +221,7 @@ pub fn run(ctx: &Ctx) -> i32 {
     run_grid(&mut rep, &gates);
     rep.exhaustive = Some(false);
     rep.extra.insert("expression_grid_exhaustive".into(), json!(true));
-    let cases = ctx.tier.pick(16_000, 600_000);
+    let cases = ctx.tier.pick(200_000, 3_000_000);
     let off = gates.off_list();
     let out = run_tapes("C01", ctx.seed, ctx.threads, cases, 1500, |tape, stats, counting| {
         let g = Gates::with_off(off.clone());
